@@ -84,6 +84,12 @@ def handleBasic (toks : List String) : Option String :=
   | ["wire.enc.yd", id, h] => do pure (bytesToHex (charsToBytes (Wire.encodeYd (← parseNat? id) (← hexToBytes h))))
   | ["wire.enc.acti", prio, dst, src, pgn, h] => do
     pure (bytesToHex (charsToBytes (Wire.encodeActisense (← parseNat? prio) (← parseNat? dst) (← parseNat? src) (← parseNat? pgn) (← hexToBytes h))))
+  | ["wire.encm.ebyte", pgn, src, dst, prio, h] => do
+    pure (bytesToHex (Wire.encodeEbyte (Straight.build_header (← parseNat? pgn) (← parseNat? src) (← parseNat? dst) (← parseNat? prio)) (← hexToBytes h)))
+  | ["wire.encm.usb", pgn, src, dst, prio, h] => do
+    pure (bytesToHex (Wire.encodeUsb (Straight.build_header (← parseNat? pgn) (← parseNat? src) (← parseNat? dst) (← parseNat? prio)) (← hexToBytes h)))
+  | ["wire.encm.yd", pgn, src, dst, prio, h] => do
+    pure (bytesToHex (charsToBytes (Wire.encodeYd (Straight.build_header (← parseNat? pgn) (← parseNat? src) (← parseNat? dst) (← parseNat? prio)) (← hexToBytes h))))
   | ["wire.dec.tcp", h] => do pure (showFrameRes (Wire.decodeTcp (← hexToBytes h)))
   | ["wire.dec.usb", h] => do pure (showFrameRes (Wire.decodeUsb (← hexToBytes h)))
   | ["wire.dec.yd", h] => do pure (showFrameRes (Wire.decodeYd (bytesToChars (← hexToBytes h))))
